@@ -779,3 +779,23 @@ def sweep_c04(tier, seed):
             break
     return {"status": "violation" if viol else "ok", "cases": n * 7, "distinct": n * 7, "violations": viol,
             "samples": [{"seed": seed * 6007}], "kind": "bounded-native"}
+
+
+def replay_hilbert(case, model, rec):
+    import itertools
+
+    from osyris.io.hilbert import _hilbert3d
+
+    from contracts import ref_hilbert as R
+
+    for bl in (1, 2, 3, 4):
+        n = 2 ** bl
+        keys = set()
+        for p in itertools.product(range(n), repeat=3):
+            k = _hilbert3d(p[0], p[1], p[2], bl)
+            keys.add(k)
+            if k != R.hilbert3d(p[0], p[1], p[2], bl):
+                return {"reproduced": True, "input": {"point": p, "bit_length": bl}, "observed": "key %d, reference %d" % (k, R.hilbert3d(*p, bl))}
+        if keys != set(range(n ** 3)):
+            return {"reproduced": True, "input": {"bit_length": bl}, "observed": "not a bijection"}
+    return {"reproduced": False}
